@@ -1,8 +1,8 @@
 SPECIFICATION Spec
 CONSTANTS
   NThreads = 3
-  MaxPerThread = 2
-  MaxTotal = 4
+  MaxPerThread = 1
+  MaxTotal = 3
   PoisonRecovery = TRUE
   Alphabet = {"base","copy","other","qmiss","sbad","json","rel1","rel2"}
   Threads <- MCThreads
